@@ -94,7 +94,9 @@ func ResolveRelativeSource(a, b Source) (Source, error) {
 	case LocalSource:
 		aRaw := a.relPath
 		new := path.Join(aRaw, bRaw)
-		if !looksLikeLocalSource(new) {
+		if new == "." || new == ".." {
+			new += "/" // "./" and "../" are the canonical forms of these two
+		} else if !looksLikeLocalSource(new) {
 			new = "./" + new // preserve LocalSource's prefix invariant
 		}
 		return LocalSource{relPath: new}, nil
